@@ -237,8 +237,7 @@ End BddInst.
 
 Ltac bdd_inst :=
   first [ exact bdd_OK_WF | exact bdd_good_ref | exact bdd_view_err | exact bdd_view_term
-        | exact bdd_view_node | exact bdd_den_indep | exact ext_nlevels | exact bdd_good_extends
-        | exact bdd_den_extends | exact add_lit_bdd_ok ].
+        | exact bdd_view_node | exact bdd_den_indep | exact add_lit_bdd_ok ].
 
 Section BddThms.
 Variable St : Type.
@@ -308,6 +307,116 @@ Qed.
 Theorem pick_dd_bdd_false : forall s st e, BddOK s -> good_bdd s e ->
   pick_cube_bdd St choice s st e = Some None ->
   pick_cube_dd_bdd St choice s st e = Some (s, e, [], st).
-Proof. intros s st e. apply (pick_dd_false view_plain BddOK good_bdd St choice add_lit_bdd). Qed.
+Proof. intros s st e. apply (pick_dd_false view_plain BddOK good_bdd add_lit_bdd St choice). Qed.
 
 End BddThms.
+
+(** ** [pick_cube_dd]: the result implies the function (in the extended table) *)
+
+Theorem pick_dd_bdd_implicant : forall St choice s st e s' r tr st', BddOK s -> good_bdd s e ->
+  pick_cube_dd_bdd St choice s st e = Some (s', r, tr, st') ->
+  BddOK s' /\ extends s s' /\ good_bdd s' r /\
+  (forall a, den_bdd s' r a = true -> den_bdd s' e a = true) /\
+  ((forall a, den_bdd s' r a = false) <-> (forall a, den_bdd s e a = false)).
+Proof.
+  intros St choice s st e s' r tr st' B G E.
+  destruct (pick_cube_bdd_total St choice s st e B G) as [[[[cb tr0] st0]|] Ep].
+  - destruct (pick_dd_bdd_same_cube St choice s st e cb tr0 st0 B G Ep) as [s1 [r1 [P [B1 [X1 [G1 D1]]]]]].
+    rewrite P in E. inversion E; subst.
+    split; [exact B1|]. split; [exact X1|]. split; [exact G1|]. split.
+    + intros a Ha. rewrite (bdd_den_extends s s' e a B B1 X1 G).
+      apply (pick_cube_bdd_implicant St choice s st e cb tr st' B G Ep). apply D1. exact Ha.
+    + split.
+      * intros Hf. exfalso.
+        destruct (pick_cube_bdd_some St choice s st e cb tr st' B G Ep) as [R [Lc Wc]].
+        destruct (run_bdd_levels St choice s st e tr st' B R G) as [A Bl].
+        (* the assignment that follows the trace satisfies the cube *)
+        set (a := fun l => match trace_val tr l with Some (Some c) => c | _ => false end).
+        assert (Ha : agrees s a cb).
+        { intros l b Hl Ec. rewrite (Wc l Hl) in Ec. unfold a.
+          destruct (trace_val tr l) as [[c|]|]; try discriminate. congruence. }
+        apply D1 in Ha. rewrite Hf in Ha. discriminate.
+      * intros Hf. exfalso.
+        pose proof (proj2 (pick_cube_bdd_none_iff St choice s st e B G) Hf). congruence.
+  - rewrite (pick_dd_bdd_false St choice s st e B G Ep) in E. inversion E; subst.
+    split; [exact B|]. split; [apply extends_refl|]. split; [exact G|]. split; [auto|]. tauto.
+Qed.
+
+(** ** [pick_cube_dd_set] *)
+
+Theorem pick_dd_set_bdd_eq : forall s e set L, BddOK s -> good_bdd s e -> good_bdd s set ->
+  cube_lits view_plain (S (nlevels s)) s set = Some L ->
+  pick_cube_dd_set_bdd s e set =
+  drop_st (pick_cube_dd_bdd unit (mask_choice (lit_pol L)) s tt e).
+Proof.
+  intros s e set L B G Gs E.
+  eapply (pick_dd_set_eq view_plain BddOK good_bdd den_bdd); try bdd_inst; eassumption.
+Qed.
+
+Theorem cube_lits_bdd_den : forall s set L, BddOK s -> good_bdd s set ->
+  cube_lits view_plain (S (nlevels s)) s set = Some L ->
+  forall a, den_bdd s set a = forallb (fun p : nat * bool => Bool.eqb (a (fst p)) (snd p)) L.
+Proof.
+  intros s set L B G E.
+  eapply (CubeAt_den view_plain BddOK good_bdd den_bdd); try bdd_inst; try eassumption.
+  eapply cube_lits_CubeAt; eauto.
+Qed.
+
+(** ** [pick_cube_uniform] *)
+
+Lemma count_bdd_spec : forall s e, BddOK s -> good_bdd s e ->
+  count_bdd s e = count_levels (nlevels s) (fun_bdd s (eref e)).
+Proof.
+  intros s e B [G _]. unfold count_bdd.
+  rewrite (sat_bdd_correct s (nlevels s) (eref e) (bo_wf s B) (bo_kind s B) (le_n _) G).
+  rewrite Nat.sub_diag. change (2 ^ N.of_nat 0)%N with 1%N. lia.
+Qed.
+
+Lemma count_bdd_term : forall s e b, BddOK s -> good_bdd s e -> view_plain s e = CTerm b ->
+  count_bdd s e = if b then (2 ^ N.of_nat (nlevels s))%N else 0%N.
+Proof.
+  intros s e b B G Ev. rewrite (count_bdd_spec s e B G).
+  destruct (view_plain_term s e b Ev) as [t [Er Et]]. rewrite Er. unfold count_levels.
+  rewrite (cnt_ext _ _ (fun_bdd s (RT t)) (fun _ => b)) by (intros a; apply fun_bdd_term; exact Et).
+  apply cnt_const.
+Qed.
+
+Lemma count_bdd_node : forall s e l t x, BddOK s -> good_bdd s e -> view_plain s e = CNode l t x ->
+  (count_bdd s t + count_bdd s x = 2 * count_bdd s e)%N.
+Proof.
+  intros s e l t x B G Ev.
+  destruct (bdd_view_node s e l t x B G Ev) as [_ [_ [Gt [Gx _]]]].
+  destruct (view_plain_node s e l t x Ev) as [id [nd [Er [E [Hc _]]]]].
+  rewrite (count_bdd_spec s t B Gt), (count_bdd_spec s x B Gx), (count_bdd_spec s e B G), Er.
+  apply (total_node s (bo_wf s B) (nlevels s) (le_n _) id nd t x E Hc).
+Qed.
+
+(** probability of the returned cube = 2^(levels - literals) / #models *)
+Theorem run_bdd_weight : forall St choice s st e tr st', BddOK s -> Run_bdd St choice s st e tr st' ->
+  good_bdd s e ->
+  let (num, dn) := trace_weight view_plain count_bdd s tr in
+  (0 < num /\ 0 < dn /\ 0 < count_bdd s e /\
+   num * count_bdd s e * 2 ^ N.of_nat (length tr) = dn * 2 ^ N.of_nat (nlevels s))%N.
+Proof.
+  intros St choice s st e tr st' B R G.
+  eapply (run_weight view_plain BddOK good_bdd den_bdd); try bdd_inst; try eassumption.
+  - exact count_bdd_term.
+  - exact count_bdd_node.
+Qed.
+
+(** the uniform picker is [pick_cube] with a particular (stateful) choice:
+    everything above applies; in particular it never returns a non-model *)
+Theorem pick_uniform_bdd_model : forall draws s e cb tr k, BddOK s -> good_bdd s e ->
+  pick_uniform_bdd draws s e = Some (Some (cb, tr, k)) ->
+  forall a, agrees s a cb -> den_bdd s e a = true.
+Proof.
+  intros draws s e cb tr k B G E.
+  apply (pick_cube_bdd_implicant nat (uni_choice view_plain count_bdd draws s) s 0 e cb tr k B G E).
+Qed.
+
+Theorem pick_uniform_bdd_none_iff : forall draws s e, BddOK s -> good_bdd s e ->
+  (pick_uniform_bdd draws s e = Some None <-> forall a, den_bdd s e a = false).
+Proof.
+  intros draws s e B G.
+  apply (pick_cube_bdd_none_iff nat (uni_choice view_plain count_bdd draws s) s 0 e B G).
+Qed.
